@@ -105,7 +105,7 @@ def conc(v):
         return v
     if isinstance(v, float):
         if math.isnan(v):
-            raise EngineError("NaN concrete value")
+            return _poison("NaN")      # a NaN computed by real torch inside the code under analysis
         if math.isinf(v):
             return v
         return Fraction(v)
@@ -172,7 +172,7 @@ def e_div(a, b):
     if not is_sym(a) and not is_sym(b):
         if b == 0:
             if a == 0:
-                raise EngineError("concrete 0/0")
+                return _poison("0/0")
             return math.inf if a > 0 else -math.inf
         if _isinf(b):
             return Fraction(0)
@@ -183,7 +183,7 @@ def e_div(a, b):
         if _isinf(b):
             return Fraction(0)
         if b == 0:
-            raise EngineError("symbolic / concrete 0")
+            return _poison("x/0")
         return lift(a, 'r') * lift(Fraction(1) / Fraction(b), 'r')
     if not is_sym(a) and a == 0:
         _guard(b)
@@ -196,6 +196,15 @@ def _guard(den):
     ex = CUR
     if ex is not None:
         ex.guards.append(lift(den, 'r') == 0)
+
+
+def _poison(why):
+    """a division by a concrete zero inside the code under analysis: an always-firing guard and an arbitrary value"""
+    ex = CUR
+    if ex is None:
+        raise EngineError("concrete " + why)
+    ex.guards.append(z3.BoolVal(True))
+    return ex.fresh('poison', 'r')
 
 
 def e_abs(a):
@@ -253,6 +262,25 @@ def e_max(a, b):
     return e_where(e_ge(a, b), a, b)
 
 
+def _to_int(a):
+    """floor of a real term as an Int term; valid monotonicity lemmas between the floor terms of the current path are added
+    to the solver (sound consequences of the semantics of floor that spare z3 a branch-and-bound over the integer parts)"""
+    t = z3.ToInt(a)
+    ex = CUR
+    if ex is not None and FLOOR_LEMMAS:
+        key = a.get_id()
+        if key not in ex.floor_seen:
+            ex.floor_seen.add(key)
+            for (a2, t2) in ex.floor_terms[-24:]:
+                ex.add_axiom(z3.Implies(a2 <= a, t2 <= t))
+                ex.add_axiom(z3.Implies(a <= a2, t <= t2))
+            ex.floor_terms.append((a, t))
+    return t
+
+
+FLOOR_LEMMAS = True
+
+
 def e_floor(a):
     if not is_sym(a):
         if _isinf(a):
@@ -260,7 +288,7 @@ def e_floor(a):
         return Fraction(math.floor(a)) if kind_of(a) == 'r' else a
     if kind_of(a) != 'r':
         return a
-    return z3.ToReal(z3.ToInt(a))
+    return z3.ToReal(_to_int(a))
 
 
 def e_ceil(a):
@@ -270,7 +298,7 @@ def e_ceil(a):
         return Fraction(math.ceil(a)) if kind_of(a) == 'r' else a
     if kind_of(a) != 'r':
         return a
-    return -z3.ToReal(z3.ToInt(-a))
+    return -z3.ToReal(_to_int(-a))
 
 
 def e_trunc(a):
@@ -580,6 +608,8 @@ class Explorer:
         self.guards = []
         self.uf_terms = {}
         self.uf_cache = {}
+        self.floor_terms = []
+        self.floor_seen = set()
         self.axioms = []
         self.trace = []
         self.pos = 0
